@@ -164,7 +164,9 @@ def assume_cases(tier, seed):
             name = rng.choice(["f", "V", "d", "x"])
             r = 1 if name in ("f", "d") else rng.choice([1, 2])
             objs.append([name, [rng.randrange(8) for _ in range(r)],
-                         [rng.randrange(8) for _ in range(r)]])
+                         [rng.randrange(8) for _ in range(r)],
+                         # class of the tensor: the declaration must not change it
+                         "anti" if name in ("f", "V") else rng.choice(["anti", "anti", "sym", "amp"])])
         yield {"objs": objs, "sym": rng.sample(["d", "x"], rng.randint(0, 2)),
                "antisym": [], "real": rng.random() < 0.5}
 
@@ -173,8 +175,10 @@ def assume_check(case):
     pool = ["i", "j", "k", "a", "b", "c", "p", "q"]
     idx = [get_symbols(n)[0] for n in pool]
     term = S.One
-    for name, up, lo in case["objs"]:
-        term *= AntiSymmetricTensor(name, tuple(idx[k] for k in up), tuple(idx[k] for k in lo))
+    kinds = {}
+    for name, up, lo, *kind in case["objs"]:
+        cls = KINDS[kinds.setdefault(name, kind[0] if kind else "anti")]
+        term *= cls(name, tuple(idx[k] for k in up), tuple(idx[k] for k in lo))
     if term is S.Zero:
         return True, "vanishes"
     sym = [s for s in case["sym"]]
@@ -190,6 +194,9 @@ def assume_check(case):
     # only declared tensors are touched
     declared = set(sym) | ({"f", "V"} if case["real"] else set())
     for t in e1.sympy.atoms(AntiSymmetricTensor):
+        if type(t) is not KINDS[kinds[t.name]]:
+            return False, (f"declaring assumptions turned the {KINDS[kinds[t.name]].__name__} {t.name} "
+                           f"into a {type(t).__name__}: {e1.sympy}")
         if t.name not in declared and t.bra_ket_sym != 0:
             return False, f"tensor {t} got a bra-ket symmetry without declaration"
         if t.name in declared and t.bra_ket_sym != 1:
